@@ -445,6 +445,21 @@ class SReal:
     def __init__(self, t):
         self.t = t
 
+    def __array_function__(self, func, types, args, kwargs):
+        """numpy functions (not ufuncs) called with a proxy as a top-level argument: isclose gets its defining formula
+        |a - b| <= atol + rtol |b| (a symbolic Boolean, so the caller's `if` forks); everything else runs as before"""
+        import numpy as _np
+        if func is _np.isclose:
+            a, b = args[0], args[1]
+            rtol = kwargs.get("rtol", args[2] if len(args) > 2 else 1e-05)
+            atol = kwargs.get("atol", args[3] if len(args) > 3 else 1e-08)
+            a, b = (v if isinstance(v, SReal) else SReal(lift(v)) for v in (a, b))
+            return abs(a - b) <= atol + rtol * abs(b)
+        impl = getattr(func, "_implementation", None)
+        if impl is None:
+            return NotImplemented
+        return impl(*args, **kwargs)
+
     # arithmetic -------------------------------------------------------------------------------
     def __add__(a, b):
         return SReal(a.t + lift(b))
